@@ -592,7 +592,7 @@ PROPS = {
         },
         "analyze": analyze_generic,
         "oracles": ["total", "modelIdempotent", "rejectsUnknown"],
-        "probes": ["reprIndependent", "compileIdempotent", "reloadSame"],
+        "probes": ["reprIndependent", "compileIdempotent", "reloadSame", "compileRetrySame"],
         "rule": ("specification documents derived from random spec graphs (ECMAScript action and guard sources): as they are, with "
                  "every pattern turned into JSON text under patternSyntax json, with bare string / bare variable patterns, and malformed "
                  "(null node, null branch, unknown interpreter, unknown branching type, unknown pattern syntax, broken source, broken "
